@@ -658,6 +658,10 @@ def one_case(ctx, rng, idx):
             ctx.count("c06.dump.compares")
             if obs["dump"] != ref["dump"]:
                 diffs = dump.diff(ref["dump"], obs["dump"], limit=4)
+                for first_sect in ("doc_count", "stored"):
+                    if ref["dump"][first_sect] != obs["dump"][first_sect]:
+                        diffs = dump.diff({first_sect: ref["dump"][first_sect]}, {first_sect: obs["dump"][first_sect]}, limit=4)
+                        break
                 sect = diffs[0].split("/")[1] if diffs and "/" in diffs[0] else "?"
                 sub = diffs[0].split("/")[2].split(":")[0] if sect in ("lengths", "columns", "vectors") and diffs[0].count("/") >= 2 else ""
                 ctx.fail("c06.dump", "dump.%s%s" % (sect, (":" + sub) if sub else ""), w, "reference (left) vs history (right): " + " || ".join(diffs))
